@@ -2,6 +2,7 @@ package doublesign
 
 import (
 	"errors"
+	"math"
 	"time"
 )
 
@@ -44,6 +45,17 @@ func (m *maxWaitError) apply(wait time.Duration, waitErr error) {
 // SyncedToEmit should be called before emitting any events
 // It returns nil if node is allowed to emit events
 // Otherwise, node returns a minimum duration of how long node should wait before emitting
+// remaining returns threshold-since for since < threshold, capped at the largest duration.
+// The true difference is positive here, so a non-positive result means it overflowed
+// (a timestamp more than 2^63 ns ahead of Now makes since saturate at the minimum).
+func remaining(threshold, since time.Duration) time.Duration {
+	wait := threshold - since
+	if wait <= 0 {
+		return math.MaxInt64
+	}
+	return wait
+}
+
 func SyncedToEmit(s SyncStatus, threshold time.Duration) (time.Duration, error) {
 	if s.PeersNum == 0 {
 		return 0, ErrNoConnections
@@ -53,19 +65,19 @@ func SyncedToEmit(s SyncStatus, threshold time.Duration) (time.Duration, error) 
 	}
 	var max maxWaitError
 	if s.Since(s.ExternalSelfEventDetected) < threshold {
-		max.apply(threshold-s.Since(s.ExternalSelfEventDetected), ErrSelfEventsOngoing)
+		max.apply(remaining(threshold, s.Since(s.ExternalSelfEventDetected)), ErrSelfEventsOngoing)
 	}
 	if s.Since(s.ExternalSelfEventCreated) < threshold {
-		max.apply(threshold-s.Since(s.ExternalSelfEventCreated), ErrSelfEventsOngoing)
+		max.apply(remaining(threshold, s.Since(s.ExternalSelfEventCreated)), ErrSelfEventsOngoing)
 	}
 	if s.Since(s.BecameValidator) < threshold {
-		max.apply(threshold-s.Since(s.BecameValidator), ErrJustBecameValidator)
+		max.apply(remaining(threshold, s.Since(s.BecameValidator)), ErrJustBecameValidator)
 	}
 	if s.Since(s.LastConnected) < threshold {
-		max.apply(threshold-s.Since(s.LastConnected), ErrJustConnected)
+		max.apply(remaining(threshold, s.Since(s.LastConnected)), ErrJustConnected)
 	}
 	if s.Since(s.P2PSynced) < threshold {
-		max.apply(threshold-s.Since(s.P2PSynced), ErrJustP2PSynced)
+		max.apply(remaining(threshold, s.Since(s.P2PSynced)), ErrJustP2PSynced)
 	}
 
 	return max.wait, max.waitErr
